@@ -49,8 +49,12 @@ CLAIMS["C14"] = dict(
     engine="seq",
     technique="explicit-state exploration of operation histories on the real object against a reference model (bounded depth, canonical-state pruning) plus deviation-bounded input enumeration",
     text="All Set/Delete/Get/ToHeader-FromHeader histories up to depth 3 (quick) / 4 (thorough) over an alphabet of valid, boundary-length and invalid keys and values, from "
-         "start states with 0, 1, 31 and 32 members, on the real TraceState against an ordered-list model with independently written W3C validity predicates; FromHeader over "
-         "all single (thorough: double) point mutations of seed headers, in exact-size heap blocks under ASan, against an independent member parser (three-valued oracle).",
+         "start states with 0, 1, 31 and 32 members, on the real TraceState against an ordered-list model with independently written W3C validity predicates; one Set (then Get, "
+         "round trip, Delete) of each string of a wide set - every byte value at every position of a simple key, a vendor@tenant key and a value, lengths 255/256/257, tenant "
+         "240/241/242 x system id 0/1/13/14/15 - and IsValidKey / IsValidValue on the same strings (three-valued oracle: level-1 ABNF must be accepted, digit-first identifiers are "
+         "don't-care, everything else must be rejected); FromHeader over all single (thorough: double) point mutations of seed headers incl. 32 and 33 members over 23 byte classes, "
+         "none truncated, in exact-size heap blocks under ASan, against an independent member parser. The whole is run twice: on TraceState as built (std::regex validators) and on "
+         "the same header compiled with OPENTELEMETRY_HAVE_WORKING_REGEX=0 (hand-written validators; histories one level shallower), the two validator variants compared on every string.",
     note=SEQ_NOTE)
 
 
